@@ -50,3 +50,18 @@ package actionlint
 //@ func (*globValidator).validate
 //@   loop "v.validateNext()":
 //@     decreases scanremaining(v.scan)
+
+// branches / tags filters are validated as Git ref globs, paths filters as path globs
+//@ func (*RuleGlob).VisitWorkflowPre
+//@   props C17
+//@   loop "range n.On":
+//@     at_call (*RuleGlob).checkGitRefGlobs: from(filter, "WebhookEvent.Branches") || from(filter, "WebhookEvent.BranchesIgnore") || from(filter, "WebhookEvent.Tags") || from(filter, "WebhookEvent.TagsIgnore")
+//@     at_call (*RuleGlob).checkFilePathGlobs: from(filter, "WebhookEvent.Paths") || from(filter, "WebhookEvent.PathsIgnore")
+//@     body_calls (*RuleGlob).checkGitRefGlobs iff istype(e, "*WebhookEvent")
+//@     body_calls (*RuleGlob).checkFilePathGlobs iff istype(e, "*WebhookEvent")
+//@ func (*RuleGlob).checkGitRefGlobs
+//@   props C17
+//@   at_call ValidatePathGlob: false
+//@ func (*RuleGlob).checkFilePathGlobs
+//@   props C17
+//@   at_call ValidateRefGlob: false
